@@ -367,6 +367,10 @@ func emptySnap() *api.ClusterInfo {
 
 type MixWorld struct {
 	Init map[int64]api.TaskStatus // status of every TaskInfo as built from its pod
+	// PodStatus / PodEmpty: read from the pod object when it was created (the session later writes
+	// Spec.NodeName of pods it places, also of placements it rolls back)
+	PodStatus map[int64]int64
+	PodEmpty  map[int64]bool
 	Spec   MixSpec
 	Ssn    *framework.Session
 	Tasks  map[int64]*api.TaskInfo
@@ -377,7 +381,7 @@ type MixWorld struct {
 var mixCache *cache.SchedulerCache
 
 func NewMixWorld(spec MixSpec) *MixWorld {
-	w := &MixWorld{Spec: spec, Tasks: map[int64]*api.TaskInfo{}, Init: map[int64]api.TaskStatus{}}
+	w := &MixWorld{Spec: spec, Tasks: map[int64]*api.TaskInfo{}, Init: map[int64]api.TaskStatus{}, PodStatus: map[int64]int64{}, PodEmpty: map[int64]bool{}}
 	if mixCache == nil {
 		mixCache = cache.NewDefaultMockSchedulerCache("verif-mix")
 	}
@@ -432,6 +436,8 @@ func NewMixWorld(spec MixSpec) *MixWorld {
 		ti := api.NewTaskInfo(pod)
 		w.Tasks[t.ID] = ti
 		w.Init[t.ID] = ti.Status
+		w.PodStatus[t.ID] = podStatusKey(pod)
+		w.PodEmpty[t.ID] = podHasNoRequest(pod)
 		if ji, ok := snap.Jobs[ti.Job]; ok {
 			ji.AddTaskInfo(ti)
 		}
@@ -515,10 +521,21 @@ func (w *MixWorld) EncLaw105() []int64 {
 		// what the CLUSTER says of the task, not what the TaskInfo claims: an empty request is "no
 		// request on any container, init containers included"; a task the session did not touch has
 		// the status of its pod (the spec's)
-		be := t.CPU == 0 && t.InitCPU == 0
+		// Both values are read from the real POD OBJECT the TaskInfo was built from, at the moment it was
+		// created (never from TaskInfo.BestEffort / TaskInfo.Status), and cross-checked against the spec.
+		if t.Mem != 0 || t.GPU != 0 {
+			panic("mix tasks carry cpu only: the empty-request flag of law 105 would be wrong")
+		}
+		be := w.PodEmpty[t.ID]
+		if be != (t.CPU == 0 && t.InitCPU == 0) {
+			panic(fmt.Sprintf("t%d: pod object and spec disagree on `no request on any container`", t.ID))
+		}
 		st := sched.StatusKey(ti.Status)
 		if ti.Status == w.Init[t.ID] {
-			st = t.Status
+			st = w.PodStatus[t.ID]
+			if st != t.Status {
+				panic(fmt.Sprintf("t%d: pod object says status key %d, the spec %d", t.ID, st, t.Status))
+			}
 		}
 		out = append(out, t.ID, t.Job, t.Role, vh.B(be), t.Pol, t.Val, st)
 	}
@@ -540,6 +557,50 @@ func (w *MixWorld) EncLaw105With(keep func(task int64) bool) []int64 {
 	out := w.EncLaw105()
 	w.Binds = all
 	return out
+}
+
+// podHasNoRequest: no container of the pod, init containers included, requests anything.
+func podHasNoRequest(pod *v1.Pod) bool {
+	for _, cs := range [][]v1.Container{pod.Spec.InitContainers, pod.Spec.Containers} {
+		for _, c := range cs {
+			for _, q := range c.Resources.Requests {
+				if !q.IsZero() {
+					return false
+				}
+			}
+		}
+	}
+	return true
+}
+
+// podStatusKey: what the cluster says of a pod the session did not touch, in the property's terms:
+// a pod being deleted is terminating whatever its phase; a pending pod that names a node is bound.
+func podStatusKey(pod *v1.Pod) int64 {
+	switch pod.Status.Phase {
+	case v1.PodSucceeded:
+		return sched.SSucceeded
+	case v1.PodFailed:
+		return sched.SFailed
+	case v1.PodRunning, v1.PodPending:
+		if pod.DeletionTimestamp != nil {
+			return sched.SReleasing
+		}
+		if pod.Status.Phase == v1.PodRunning {
+			return sched.SRunning
+		}
+		if pod.Spec.NodeName != "" {
+			return sched.SBound
+		}
+		return sched.SPending
+	}
+	return sched.SUnknown
+}
+
+// preRunBinds runs a directed case once in the generator: did the law's antecedent (a bind) occur?
+func preRunBinds(spec MixSpec) int {
+	w := NewMixWorld(spec)
+	w.RunActions()
+	return len(w.Binds)
 }
 
 // f10Jobs: F10 mechanism per job on THIS execution: allocate more than once, and the job received a
@@ -829,15 +890,25 @@ func genLawOnly(rng *vh.Rng, n int, emit func(id string, sel int, in []int64, ki
 		if i%10 == 4 {
 			variant := (i / 10) % 3
 			spec = specPodShapes(r, variant)
-			emit(fmt.Sprintf("lawonly-%d", i), 4, spec.Enc(), fmt.Sprintf("podshape/law-only/%s/actions=%v",
-				[]string{"init-container-only-request", "init-above-containers", "terminating-bound-not-started"}[variant], spec.Actions), true,
-				map[string]any{"directed": "gang member built from a real pod (round 9)", "variant": variant, "actions": spec.Actions})
+			nb := preRunBinds(spec)
+			neg := ""
+			if nb == 0 {
+				neg = "/directed-negative" // nothing bound: law 105's antecedent is empty, a negative control
+			}
+			emit(fmt.Sprintf("lawonly-%d", i), 4, spec.Enc(), fmt.Sprintf("podshape/law-only/%s%s/actions=%v",
+				[]string{"init-container-only-request", "init-above-containers", "terminating-bound-not-started"}[variant], neg, spec.Actions), nb > 0,
+				map[string]any{"directed": "gang member built from a real pod (round 9)", "variant": variant, "actions": spec.Actions, "binds": nb})
 			continue
 		}
 		if i%10 == 9 {
 			spec = specPipelinedGroup(r)
-			emit(fmt.Sprintf("lawonly-%d", i), 4, spec.Enc(), fmt.Sprintf("sub/law-only/directed-pipelined-group/actions=%v", spec.Actions), true,
-				map[string]any{"directed": "a sub-group complete only with a Pipelined pod", "tasks": len(spec.Tasks), "actions": spec.Actions})
+			nb := preRunBinds(spec)
+			neg := ""
+			if nb == 0 {
+				neg = "/directed-negative"
+			}
+			emit(fmt.Sprintf("lawonly-%d", i), 4, spec.Enc(), fmt.Sprintf("sub/law-only/directed-pipelined-group%s/actions=%v", neg, spec.Actions), nb > 0,
+				map[string]any{"directed": "a sub-group complete only with a Pipelined pod", "tasks": len(spec.Tasks), "actions": spec.Actions, "binds": nb})
 			continue
 		}
 		switch i % 3 {
